@@ -227,6 +227,11 @@ func (a *TCPAllocation) DialTCPWithConn(conn net.Conn, _ string, rAddr *net.TCPA
 		return nil, err
 	}
 
+	// The wait for the permission may have outlasted the allocation.
+	if err = a.dialErr(rAddr); err != nil {
+		return nil, err
+	}
+
 	// Send connect request if haven't done so.
 	cid, err := a.Connect(rAddr)
 	if err != nil {
